@@ -86,10 +86,11 @@ PROPS = {
         "harness": [
             e2e("mixed,invalid,lifecycle,code,precompile,conf,delegated", 140, 6000, configs="w1,w2,w3,fallback", schedules=4, label="termination"),
             {"sub": "panics", "quick": {"cases": 10}, "thorough": {"cases": 400, "max-keys": 12}, "timeout": 7000},
+            {"sub": "panics", "quick": {"cases": 12, "families": "invalid", "max-keys": 8}, "thorough": {"cases": 300, "families": "invalid", "max-keys": 12}, "timeout": 7000},
             {"sub": "kernel-wait", "quick": {"cases": 300}, "thorough": {"cases": 20000}, "timeout": KERNEL_TIMEOUT},
             {"sub": "kernel-dep", "quick": {"cases": 300}, "thorough": {"cases": 20000}, "timeout": KERNEL_TIMEOUT},
         ],
-        "rule": "termination: every generated block (all families incl. invalid transactions whose validity depends on earlier ones — errors parked behind the commit boundary —, fatal precompile errors, mid-block replay, delegated-safety policies) runs on the real scheduler with 1-3 workers + finality + commit thread, free and under seeded random / PCT / sticky controller schedules in which park/unpark are emulated by the token contract and NO stall timer exists: a state in which no enrolled thread can run is a deadlock, 60000 consecutive idle (spin / recheck) steps or 400000 steps are a livelock, both reported with the schedule; a run that does not return within 60-90 s trips the process watchdog; the result must also equal the in-order oracle; panics: for every database key a block touches, a database that panics on that key: execute() must return by unwinding with the ORIGINAL panic, every scheduler thread must leave, no stall; kernel-wait / kernel-dep: trace conformance of WaitSlot and TxDependency with their proven models (a waiter or a parked transaction left behind is a stall); " + E2E_RULE,
+        "rule": "termination: every generated block (all families incl. invalid transactions whose validity depends on earlier ones — errors parked behind the commit boundary —, fatal precompile errors, mid-block replay, delegated-safety policies) runs on the real scheduler with 1-3 workers + finality + commit thread, free and under seeded random / PCT / sticky controller schedules in which park/unpark are emulated by the token contract and NO stall timer exists: a state in which no enrolled thread can run is a deadlock, 60000 consecutive idle (spin / recheck) steps or 400000 steps are a livelock, both reported with the schedule; a run that does not return within 60-90 s trips the process watchdog; the result must also equal the in-order oracle; panics: for every database key a block touches, a database that panics on that key — persistently, and only once —: execute() must return by unwinding with the ORIGINAL panic whenever the database panicked inside the scheduler (counted in the database itself), every scheduler thread must leave, no stall; a second run over blocks with invalid transactions combines panics with recorded aborts (sequential fallback, fatal errors); kernel-wait / kernel-dep: trace conformance of WaitSlot and TxDependency with their proven models (a waiter or a parked transaction left behind is a stall); " + E2E_RULE,
         "trusted_base": E2E_TRUST,
         "modelled": ["the pipeline (Model/Sched.lean), the dependency graph (Model/TxDep.lean), the validation cursor (Model/Cursor.lean) and the wait slot (Model/WaitSlot.lean) as for C02, C16, C15, C17", "which transaction a worker claims is left to the scheduler of the pipeline model (arbitrary), so fair termination is not expressible there"],
         "assumptions": ["threads are scheduled fairly by the OS (the controller's fairness valve plays that role)", "user code (database, precompiles) returns or panics"],
